@@ -44,6 +44,9 @@ pub struct SimCfg {
     /// linear commits applied by everybody before the driven phase (so that histories also run at
     /// epochs 9, 10, 11 ... - two-digit epoch numbers - and with a full snapshot queue)
     pub warmup_commits: usize,
+    /// extra weight of nostr-id rotations among an admin's commits (C08: rotations that lose a race
+    /// after having been applied - the id they introduced must stop routing)
+    pub rotate_boost: u32,
 }
 
 impl SimCfg {
@@ -73,6 +76,7 @@ impl SimCfg {
             second_group: false,
             bounded_depth: true,
             warmup_commits: 0,
+            rotate_boost: 0,
         }
     }
 }
